@@ -73,8 +73,26 @@ _built = False
 
 def build_harness(ctx=None):
     """Rebuild the driver binary from /repo's current working tree with the hooks on."""
-    global _built
+    global _built, VDRIVE
     if _built:
+        return
+    alt = os.environ.get("VERIF_REPO")
+    if alt and os.path.abspath(alt) != "/repo":
+        # seeded-change testing without touching /repo: the drivers are built against another checkout (a scratch
+        # worktree with the change applied), from a scratch copy of the harness module; registered commands never set this
+        work = ctx.work if ctx else "/tmp"
+        hcopy = os.path.join(work, "harness-alt")
+        shutil.rmtree(hcopy, ignore_errors=True)
+        shutil.copytree(HARNESS, hcopy, ignore=shutil.ignore_patterns("bin"))
+        gm = open(os.path.join(hcopy, "go.mod")).read().replace("=> /repo/lib", "=> %s/lib" % os.path.abspath(alt))
+        open(os.path.join(hcopy, "go.mod"), "w").write(gm)
+        shutil.copyfile(os.path.join(alt, "lib", "go.sum"), os.path.join(hcopy, "go.sum"))
+        out_bin = os.path.join(work, "vdrive-alt")
+        rc, out = run(["go", "build", "-tags", "verif", "-o", out_bin, "./cmd/vdrive"], cwd=hcopy, env=GOENV, timeout=900)
+        if rc != 0:
+            raise Inconclusive("harness build against %s failed:\n%s" % (alt, out[-6000:]))
+        VDRIVE = out_bin
+        _built = True
         return
     os.makedirs(os.path.join(HARNESS, "bin"), exist_ok=True)
     shutil.copyfile("/repo/lib/go.sum", os.path.join(HARNESS, "go.sum"))
